@@ -10,9 +10,9 @@ def PC.mtOld : PC → Option Word
   | .mtLdW _ o | .mtLdRc _ o | .mtRmLd _ o | .mtRmCas _ o _ | .mtStW _ o | .mtStRel _ o _ => some o
   | _ => none
 
-/-- Between the store `waiting := 1` and the enqueue CAS of mu_wait: the record and the condition of the call. -/
+/-- Between the store `waiting := 1` and the release CAS of mu_wait: the record and the condition of the call. -/
 def PC.limboC : PC → Option (Wid × Option Cond)
-  | .mwRcLd c | .mwEnqLd c | .mwEnqCas c _ => c.w.map (fun k => (k, c.cond))
+  | .mwRcLd c | .mwEnqLd c | .mwEnqCas c _ | .mwRelLd c | .mwRelCas c _ _ => c.w.map (fun k => (k, c.cond))
   | _ => none
 
 structure Inv5 (s : State) : Prop where
